@@ -363,3 +363,61 @@ Theorem C03_code_doesUintPassRangeFilter_is_model : forall o l mn mx,
   gen_doesUintPassRangeFilter (op_to_code o) l mn mx = pass_rangeZ o l mn mx.
 Proof. exact gen_doesUintPassRangeFilter_is_model. Qed.
 Print Assumptions C03_code_doesUintPassRangeFilter_is_model.
+
+(* ---- the block scheduler of the query pipeline as a layout dimension (degree of parallelism,
+   block and segment time ranges).  Searcher.Fetch takes at most GOMAXPROCS blocks per call, releases
+   the records newer than an end time derived from the blocks of that call and holds the others back
+   (unsentRRCs) until a later call.  Model of the scheduler: Sched.v (C05); Fetch.v adds layouts
+   (segments of blocks with their LowTs/HighTs summaries and matching records).
+   For EVERY layout whose summaries cover their records and EVERY GOMAXPROCS the stream ends with
+   io.EOF and has released exactly the matching records, newest first ---- *)
+From SigM Require Import SortCmd Sched Fetch.
+From SigP Require Import SchedProofs FetchProofs.
+Open Scope N_scope.
+
+Theorem C03_fetch_answer_is_spec : forall procs L, layout_ok L = true ->
+  snd (run RecentFirst procs (to_queue L)) = true /\
+  Permutation (fst (run RecentFirst procs (to_queue L))) (lrecs L) /\
+  sorted_desc (fst (run RecentFirst procs (to_queue L))).
+Proof. exact fetch_is_spec. Qed.
+Print Assumptions C03_fetch_answer_is_spec.
+
+(* … hence two layouts of the same matching records (any split into segments and blocks, any block
+   time ranges: disjoint, overlapping, nested through late events) give the same records under any
+   two degrees of parallelism *)
+Theorem C03_fetch_layout_and_parallelism_invariance : forall p1 p2 L1 L2,
+  layout_ok L1 = true -> layout_ok L2 = true -> Permutation (lrecs L1) (lrecs L2) ->
+  snd (run RecentFirst p1 (to_queue L1)) = true /\ snd (run RecentFirst p2 (to_queue L2)) = true /\
+  Permutation (fst (run RecentFirst p1 (to_queue L1))) (fst (run RecentFirst p2 (to_queue L2))).
+Proof. exact fetch_invariance. Qed.
+Print Assumptions C03_fetch_layout_and_parallelism_invariance.
+
+(* … and with pairwise different timestamps the very same list of hits in the same order *)
+Theorem C03_fetch_invariance_exact : forall p1 p2 L1 L2,
+  layout_ok L1 = true -> layout_ok L2 = true -> Permutation (lrecs L1) (lrecs L2) ->
+  NoDup (map rts (lrecs L1)) ->
+  fetch_answer p1 L1 = fetch_answer p2 L2 /\ snd (fetch_answer p1 L1) = true.
+Proof. exact fetch_invariance_exact. Qed.
+Print Assumptions C03_fetch_invariance_exact.
+
+(* the premise layout_ok is no restriction on the events: with the summaries the writer computes
+   (min / max timestamp of the block) every split of every record set is a well-formed layout *)
+Theorem C03_fetch_split_invariance : forall p1 p2 (S1 S2 : list (list (list rec))),
+  Permutation (concat (map (@concat rec) S1)) (concat (map (@concat rec) S2)) ->
+  NoDup (map rts (concat (map (@concat rec) S1))) ->
+  fetch_answer p1 (layout_of_recs S1) = fetch_answer p2 (layout_of_recs S2) /\
+  snd (fetch_answer p1 (layout_of_recs S1)) = true.
+Proof. exact fetch_split_invariance. Qed.
+Print Assumptions C03_fetch_split_invariance.
+
+(* the end-of-stream test has to look at the records held back: with `no blocks left and all segments
+   handed out` alone, three blocks of one segment whose newest block also holds a late event (oldest
+   timestamp) lose that event with GOMAXPROCS = 2 and keep it with GOMAXPROCS = 16 *)
+Theorem C03_fetch_eof_needs_unsent_check_refuted :
+  layout_ok late_layout = true /\
+  fetch_answer 2 late_layout = ([6; 5; 4; 3; 2; 1; 0], true) /\
+  fetch_answer 16 late_layout = ([6; 5; 4; 3; 2; 1; 0], true) /\
+  fetch_answer_noflush 16 late_layout = ([6; 5; 4; 3; 2; 1; 0], true, []) /\
+  fetch_answer_noflush 2 late_layout = ([6; 5; 4; 3; 2; 1], true, [0]).
+Proof. exact noflush_loses_held_back_record. Qed.
+Print Assumptions C03_fetch_eof_needs_unsent_check_refuted.
